@@ -269,7 +269,7 @@ example : ((Interner.new.addNameNs ['a'] 0).1.addNameNs ['a'] 1).1.nameLookup.by
 /-- `C08_wraps` at width 2: five distinct values, first and last get id 0. -/
 example : (registerAll 2 (empty : IdMap Nat) [10, 11, 12, 13, 14]).2 = [0, 1, 2, 3, 0] := by decide
 
-/-- The value that wraps in `C08_wraps_names` at today's width is `n65534`. -/
-example : nameIdBits = 16 ∧ bulkValue ['n'] (2 ^ 16 - 2) = ['n','6','5','5','3','4'] := by decide
+/-- At width 16 the value that wraps in `C08_wraps_names` is `n65534`. -/
+example : bulkValue ['n'] (2 ^ 16 - 2) = ['n','6','5','5','3','4'] := by decide
 
 end XotModel.Props
